@@ -8,7 +8,7 @@ from ..core import Failure
 from ..model import MP, arr_map, mp_close
 
 ID = "C05"
-BUDGET = {"quick": 220, "thorough": 700}
+BUDGET = {"quick": 600, "thorough": 1200}
 TECHNIQUE = ("Hypothesis-generated dividend/divisor classes with a loop-state monitor (repeated digest = "
              "non-termination witness) vs division identity, cofactor and degree oracles in the exact model; "
              "operator/function differential")
@@ -21,7 +21,7 @@ RULE = (
     "coefficients, from the classes random / exact-multiple (cofactor*divisor built in numpoly and in the model) / "
     "multiple-plus-remainder / constant-divisor (with zero entries) / univariate / incomparable-top-terms "
     "(e.g. q1**2-2*q0) / per-element-different-leading-terms. With the division-loop monitor armed: the call "
-    "returns (a repeated loop state or 3000 candidate searches is a non-termination witness); dividend == "
+    "returns (a repeated loop state is a non-termination witness, 400 candidate searches - an order of magnitude above any terminating run at these sizes - are reported as cap-without-repeat); dividend == "
     "q*divisor + r in the model (tolerance 1e-8*scale); non-zero constant divisor element => q is the true quotient "
     "and r == 0; exact multiple => r == 0 and q == cofactor; one indeterminate => deg r < deg divisor; / % divmod "
     "and reflected forms are representation-identical to poly_divide/poly_remainder/poly_divmod. "
